@@ -62,7 +62,7 @@ def validate_trace(ck, args, sc, label):
     mod = ("---- MODULE MC_PTTrace ----\nEXTENDS PTTrace\nMCBeta4 == %s\nMCETab == %s\nMCInit == %s\nMCELo == %d\n====\n"
            % (tla_val(beta4), tla_val(PT.etable(args.get("eoffset", 0))), tla_val([i["pos"] for i in sc["result"]["init"]]), PT.WLO))
     cfg = ("SPECIFICATION TraceSpec\nCONSTANTS N = %d MB = %d\n Beta4 <- MCBeta4\n ETab <- MCETab\n ELo <- MCELo\n InitPos <- MCInit\n"
-           "INVARIANT ProbsBelong\nINVARIANT Report\nCONSTRAINT Progress\nPOSTCONDITION TraceAccepted\nCHECK_DEADLOCK FALSE\n" % (n, PT.MBITS))
+           "INVARIANT ProbsBelong\nINVARIANT StatsSane\nINVARIANT Report\nCONSTRAINT Progress\nPOSTCONDITION TraceAccepted\nCHECK_DEADLOCK FALSE\n" % (n, PT.MBITS))
     r = run_tlc("MC_PTTrace", cfg_text=cfg, extra_files={"MC_PTTrace.tla": mod}, workers=1, dfs=True,
                 env={"TRACE_FILE": path}, timeout=600)
     if r.error and "TraceAccepted" not in (r.error or "") and not any("REJECTED" in x for x in r.raw_printed):
